@@ -378,7 +378,23 @@ fn judge(exp: &Expected, obs: &Outcome, err: Option<&darling::Error>, panic_fire
     match (exp, obs) {
         // the model expected a panic seam to be reached and it was not: which seams darling calls when
         // no property depends on it is darling's business; nothing to compare in this run
-        (Expected::Panic(_), _) | (Expected::NoPanic, _) => {}
+        (Expected::Panic(_), _) => {}
+        (Expected::NoPanic, _) => {
+            // not predicted (library conversions): which errors come back is not judged, but what C03 says
+            // of every error value still holds - spans belong to this input, and conversion to compiler
+            // diagnostics keeps every leaf and its span
+            if let (Some(e), Outcome::Err { len, leaves }) = (err, obs) {
+                let mut fs = Vec::new();
+                if *len != leaves.len() {
+                    fs.push(fail("C02.R3", format!("Error::len() = {} but {} leaves", len, leaves.len())));
+                }
+                check_error_value(e, leaves, &mut fs);
+                for mut f in fs {
+                    f.detail = format!("{}{}", tag, f.detail);
+                    out.push(f);
+                }
+            }
+        }
         (Expected::Value(v), Outcome::Ok(o)) => {
             if !opt_val_matches(v, o) {
                 out.push(fail("C02.R1v", format!("{}value differs: expected {:?}, got {:?}", tag, v, o)));
